@@ -158,6 +158,8 @@ static void	v_free(void *p);
 #undef sigaddset
 #define sigemptyset(a)			v_sigemptyset((a))
 #define sigaddset(a, b)			v_sigaddset((a), (b))
+#undef explicit_bzero
+#define explicit_bzero(a, b)		((void)memset((a), 0, (b)))	/* same effect; CBMC has a cheap built-in memset */
 #define calloc(a, b)			v_calloc((a), (b))
 #define free(a)				v_free((a))
 
